@@ -5,7 +5,12 @@ HERE = os.path.dirname(os.path.abspath(__file__))
 
 
 def harness_files(tier, seed):
-    return [os.path.join(HERE, 'hC14.py')]
+    files = [os.path.join(HERE, 'hC14.py')]
+    if tier == 'thorough':
+        # 32 dataclass definitions drawn from a grammar with VERIF_SEED (regenerated at import from the seed)
+        os.environ['VERIF_SEED'] = str(seed)
+        files.append(os.path.join(HERE, 'hC14g.py'))
+    return files
 
 
 META = dict(
